@@ -51,7 +51,9 @@ PROPS = {
                 rule='grammars with error rules, non-sentences <= 9 tokens, recovery_match 1..5, lookahead 0-2: the number of tokens the first callback reports ignored vs the minimum over all simple recoveries (back position with `. error` x forward skip) computed by brute force from the statement over the model sets',
                 assumptions=COMMON_ASSUME + ['recover_minimal is proved for the recovery model under r.ok (search finished within fuel); the oracle simpleRecoveryCosts is the property statement itself']),
     'C09': dict(level='proof', theorem_modules=['C09', 'C09Lookahead', 'C01'], min_theorems=12, tags=['C09'], crash_counts=True,
-                gen=lambda seed, tier: parse_family('C09', 2400, 30000)(seed, tier) + long_c09_cases(seed, tier), flavours=['c'],
+                gen=lambda seed, tier: parse_family('C09', 2400, 30000)(seed, tier) + long_c09_cases(seed, tier) +
+                                       gen.gen_parse_cases(seed + 5, 3000 if tier == 'thorough' else 500, 'C09', maxlen=9, kind='recov-cache', force=dict(rec=1)) +
+                                       gen.gen_parse_cases(seed + 6, 1500 if tier == 'thorough' else 150, 'C09', maxlen=9, kind='stmt-list'), flavours=['c'],
                 rule='each input parsed at lookahead -3,0,1,2,7 and at several debug levels with otherwise identical flags: all observables (rc, callbacks, ambiguity flag, denoted tree set with costs) must be identical; goto-cache self-check hook on every parse',
                 assumptions=COMMON_ASSUME + ['verdict_indep_of_la01 / firstError_indep_of_la01 proved for levels 0/1; level 2 only through cross-level comparison']),
     'C05': dict(level='proof', theorem_modules=['C05'], min_theorems=4, tags=['C05'], crash_counts=True,
@@ -277,6 +279,12 @@ def perf_cases(tier, las=(0, 1, 2), hook=8, with_rec=False):
                     cases.append(['case P-%s.%s-%d-1 perf' % (fam, cfgname, n), 'notree', 'quietev', 'text 0 %s' % d.encode().hex(),
                                   'op 1 create 0', 'op 2 descr 0 0 1', 'op 3 set 0 %s' % key, 'op 4 set 0 rec 0',
                                   'op 5 parse 0 user user %d %s' % (hook, perf_tokens(fam, n)), 'op 6 free 0', 'end'])
+    if tier != 'thorough' and not with_rec:
+        # growth policies of the containers show only on long inputs: one family, one level
+        for n in (32000, 64000, 128000, 256000):
+            cases.append(['case P-llist.long-%d-1 perf' % n, 'notree', 'quietev', 'text 0 %s' % PERF_DESCR['llist'].encode().hex(),
+                          'op 1 create 0', 'op 2 descr 0 0 1', 'op 3 set 0 rec 0', 'op 4 set 0 la 1',
+                          'op 5 parse 0 user user %d %s' % (hook, perf_tokens('llist', n)), 'op 6 free 0', 'end'])
     d = ansic.description(); t = ansic.tokens()
     asizes = [1000, 2000, 4000, 8000, 16000, 32000] + ([64000, 128000, 256000, 512000] if tier == 'thorough' else [])
     for n in asizes:
